@@ -11,6 +11,8 @@ package native
 
 import (
 	"bytes"
+	"math/rand"
+	"net"
 	"runtime"
 	"strconv"
 	"strings"
@@ -70,6 +72,30 @@ type vSessCtl struct {
 	sentOnConn         int
 	hs                 int
 	desync             int
+
+	slowSend time.Duration // free-running: pace the sender after each UPDATE written (a slow socket)
+	jitter   bool          // wrap s.conn at "connected" by a connection with individually delayed writes
+	pace     *rand.Rand    // guarded by log.mu
+}
+
+// vSessJitterConn delays every Write call on its own before handing it on, short writes (a
+// KEEPALIVE is 19 octets) longer than others: a message handed over in ONE Write still arrives
+// whole, messages written concurrently or in pieces arrive in whatever order the delays produce.
+type vSessJitterConn struct {
+	net.Conn
+	mu  sync.Mutex
+	rng *rand.Rand
+}
+
+func (j *vSessJitterConn) Write(b []byte) (int, error) {
+	j.mu.Lock()
+	d := time.Duration(j.rng.Intn(1500)) * time.Microsecond
+	if len(b) <= 19 {
+		d += time.Duration(3000+j.rng.Intn(4000)) * time.Microsecond
+	}
+	j.mu.Unlock()
+	time.Sleep(d)
+	return j.Conn.Write(b)
 }
 
 func vSessNewCtl(l *vSessLog, u *vSessUniverse, gated bool) *vSessCtl {
@@ -177,6 +203,15 @@ func (c *vSessCtl) onPoint(point string, s *session) {
 	f["hs"] = c.hs
 	l.addLocked("hook", f)
 
+	var paceFor time.Duration
+	if !c.gated && c.slowSend > 0 && (base == "full.sent" || base == "diff.sent") {
+		paceFor = time.Duration(c.pace.Int63n(int64(c.slowSend)))
+	}
+	if base == "connected" && c.jitter && s.conn != nil {
+		// s.mu is held: from now on everything the session writes goes through the delaying wrapper
+		// (the reader keeps the inner connection; these runs have no drops by the peer)
+		s.conn = &vSessJitterConn{Conn: s.conn, rng: rand.New(rand.NewSource(c.pace.Int63()))}
+	}
 	switch base {
 	case "connected":
 		c.nconnected++
@@ -222,6 +257,9 @@ func (c *vSessCtl) onPoint(point string, s *session) {
 	l.mu.Unlock()
 	if wait != nil {
 		<-wait
+	}
+	if paceFor > 0 {
+		time.Sleep(paceFor) // s.mu stays held, as it would while a write blocks on a slow socket
 	}
 }
 
